@@ -161,6 +161,13 @@ def apply_op(op: str, a: list, p: dict):
         t = a[0].copy()
         t[_idx(p["index"])] = a[1]
         return t
+    if op in ("setitem_values", "setitem_null"):
+        # a field of a nullable array written in place through its accessor, after the value was looked at
+        t = a[0].copy()
+        t.to_numpy()
+        f = t.values if op == "setitem_values" else t.null
+        f[_idx(p["index"])] = a[1]
+        return t
     if op == "setitem_mask":
         t = a[0].copy()
         t[a[1]] = a[2]
@@ -462,6 +469,20 @@ def propose(rng: random.Random, pool: list[dict], families: list[str] | None = N
         return "astype", [x["ref"]], {"dtype": rng.choice(targets)}
     if fam == "inplace":
         c = rng.random()
+        if impl.is_nullable(d) and rng.random() < 0.3:
+            idx = [e for e in _basic_index(rng, shp) if e is not None]
+            if rng.random() < 0.5:
+                core = _core(d)
+                v = ["py", 1 if _is_num(d) else (True if _is_bool(d) else "q")]
+                y = pick(lambda e: e["dtype"] == core and len(e["shape"]) == 0)
+                if y is not None and rng.random() < 0.7:
+                    v = y["ref"]
+                return "setitem_values", [x["ref"], v], {"index": idx}
+            v = ["py", rng.random() < 0.5]
+            y = pick(lambda e: e["dtype"] == "bool" and len(e["shape"]) == 0)
+            if y is not None and rng.random() < 0.7:
+                v = y["ref"]
+            return "setitem_null", [x["ref"], v], {"index": idx}
         if c < 0.5:
             idx = _basic_index(rng, shp)
             idx = [e for e in idx if e is not None]
@@ -581,7 +602,14 @@ def generate(rng: random.Random, n_inputs=(1, 3), n_steps=(1, 6), dtypes=None, f
         inputs.append({"dtype": rng.choice(dtypes), "dims": dims})
     # helper inputs that make index/mask ops applicable
     if rng.random() < 0.5 and first_dims:
-        inputs.append({"dtype": "bool", "dims": list(first_dims[:rng.randrange(1, len(first_dims) + 1)])})
+        if rng.random() < 0.6:
+            inputs.append({"dtype": "bool", "dims": list(first_dims[:rng.randrange(1, len(first_dims) + 1)])})
+        else:
+            # a mask that broadcasts against the first input: trailing dims, some of extent 1 (literal or the
+            # always-1 size variable "U", which is *declared* symbolic / unknown)
+            md = list(first_dims[rng.randrange(0, len(first_dims)):])
+            md = [(1 if rng.random() < 0.4 else "U") if rng.random() < 0.5 else d for d in md]
+            inputs.append({"dtype": "bool", "dims": md})
     if preset_inputs is not None:
         inputs = preset_inputs
     prog = {"inputs": inputs, "steps": [], "gen_sizes": sizes, "seed": seed}
